@@ -393,6 +393,7 @@ int cif_loop_add_packet(
     PREPARE_STMT(cif, get_packet_num, GET_PACKET_NUM_SQL);
     PREPARE_STMT(cif, check_item_loop, CHECK_ITEM_LOOP_SQL);
     PREPARE_STMT(cif, insert_value, INSERT_VALUE_SQL);
+    PREPARE_STMT(cif, fill_packet, FILL_PACKET_SQL);
 
     if (BEGIN_NESTTX(cif->db) == SQLITE_OK) {
         STEP_HANDLING;
@@ -420,7 +421,12 @@ int cif_loop_add_packet(
                         /* step through the entries in the packet */
                         for (item = packet->map.head; ; item = (struct entry_s *) item->hh.next) {
                             if (item == NULL) { /* no more entries */
-                                if (COMMIT_NESTTX(cif->db) == SQLITE_OK) {
+                                /* the loop's remaining items get the explicit unknown value in the new packet */
+                                if ((sqlite3_bind_int64(cif->fill_packet_stmt, 1, container->id) == SQLITE_OK)
+                                        && (sqlite3_bind_int(cif->fill_packet_stmt, 2, loop->loop_num) == SQLITE_OK)
+                                        && (sqlite3_bind_int(cif->fill_packet_stmt, 3, row_num) == SQLITE_OK)
+                                        && (STEP_STMT(cif, fill_packet) == SQLITE_DONE)
+                                        && (COMMIT_NESTTX(cif->db) == SQLITE_OK)) {
                                     return CIF_OK;
                                 } else {
                                     DEFAULT_FAIL(hard);
@@ -505,6 +511,7 @@ int cif_loop_add_packet(
         (void) ROLLBACK_NESTTX(cif->db);
     }
 
+    DROP_STMT(cif, fill_packet);
     DROP_STMT(cif, insert_value);
     DROP_STMT(cif, check_item_loop);
     DROP_STMT(cif, get_packet_num);
